@@ -25,6 +25,8 @@ recarray = RecArray
 
 
 def _a(x):
+    if isinstance(x, _rnp.ndarray):
+        return from_real(x)
     return x if isinstance(x, ndarray) else asarray(x)
 
 
@@ -158,6 +160,8 @@ def _atleast(p, n):
     p = p if isinstance(p, ndarray) else asarray(p)
     if isinstance(p, RecArray):
         return p
+    if isinstance(p, RecScalar):
+        return RecArray(p.names, [ndarray([v], (1,), p.dtype.field(nm)) for nm, v in zip(p.names, p.vals)], p.dtype)
     while p.ndim < n:
         p = ndarray(p._d, (1,) + p.shape, p.dtype)
     return p
